@@ -202,6 +202,11 @@ func runSysPlug(x *X) {
 			ex.body = sizedBody(x, n, true, "req")
 			ex.chunked = c.Intn(2, "reqchunked") == 1
 			ex.pieces = genPieces(x, len(ex.body), "req")
+			// what the client calls its body is the client's business (forms included: a plugin that
+			// counts bytes has no reason to parse them)
+			if ct := []string{"", "", "application/x-www-form-urlencoded", "multipart/form-data; boundary=xyz", "application/json", "text/plain; charset=utf-8"}[c.Intn(6, "req-content-type")]; ct != "" {
+				ex.hdr = append(ex.hdr, hdrKV{"Content-Type", ct})
+			}
 		}
 		// now and then a body of hundreds of kilobytes to megabytes (well inside the buffering cap)
 		largeOdds := 25
@@ -433,6 +438,16 @@ func runSysPlug(x *X) {
 				}
 			} else if len(ex.body) == L1 && L1 > 0 {
 				x.Probe("request-exactly-at-limit")
+			}
+		}
+		// a request within the limit (or with no limit configured) passes through the plugins as it
+		// came: the backend reads the bytes the client sent
+		if !wantSize || len(ex.body) <= L1 {
+			for _, sr := range ex.seen {
+				if sr.bodyErr == "" && !bytes.Equal(sr.body, ex.body) {
+					x.Violate(propOf(x, wantSize), propOf(x, wantSize)+"/within-limit-request-altered", "exchange %d (%s, chunked=%v, %d body bytes, headers %v): the backend read %d bytes that differ from what the client sent", ex.id, ex.method, ex.chunked, len(ex.body), ex.hdr, len(sr.body))
+					break
+				}
 			}
 		}
 		if reqOver || got == nil {
